@@ -9,6 +9,8 @@ from ..runner import Prop
 ALPHA = [0, 1, 2, 3]
 KEYS = ["const0", "id", "mod2", "mod3"]
 KEYFN = {
+    "div2": lambda v: v // 2,
+    "div3": lambda v: v // 3,
     "const0": lambda v: 0,
     "id": lambda v: v,
     "mod2": lambda v: v % 2,
@@ -100,6 +102,21 @@ class C20(Prop):
                     for term in TERMS:
                         out.append(mk_case(key, list(xs), term, "local"))
                         out.append(mk_case(key, list(xs), term, "threads"))
+        # a STATEFUL key function (harness field `seqkey m`: the n-th call answers n / m) over the items 0,1,2,… in
+        # order: coincides with the pure key `div<m>` of the model and of this oracle iff the library calls the key
+        # function exactly once per item, in order; every case ends with the call count (`q kc`)
+        for m in (2, 3):
+            for n in range(0, 8):
+                for term in TERMS:
+                    for fl in ("local", "threads"):
+                        for extra in ([], [["gunsub", "0"]], [["unsub"]]):
+                            c = mk_case(f"div{m}", list(range(n)), term, fl, tail=[["q", "kc"]], kind="seqkey")
+                            c.fields.append(("seqkey", [str(m)]))
+                            if extra and n >= 2:
+                                c.events = c.events[: n // 2 + 1] + extra + c.events[n // 2 + 1:]
+                            elif extra:
+                                continue
+                            out.append(c)
         nrand = 6000 if tier == "quick" else 60000
         for _ in range(nrand):
             out.append(self.rand_case(rng))
@@ -137,7 +154,7 @@ class C20(Prop):
         if rng.random() < 0.5:          # post-terminal tail
             for _ in range(rng.randint(1, 3)):
                 evs.append(emit(rng.choice([sx.N(rng.choice(alpha)), "c", ["e", "8"]])))
-        c = mk_case(key, [], None, flavor, tail=evs, skip=skip, otake=otake, kind=kind)
+        c = mk_case(key, [], None, flavor, tail=evs + [["q", "kc"]], skip=skip, otake=otake, kind=kind)
         return c
 
     # ----------------------------------------------------------------- oracle
@@ -147,10 +164,15 @@ class C20(Prop):
         ot = case.field("otake")
         otake = int(ot[0]) if ot else None
         evtoks = []
+        kcs = []
         for i in range(len(case.events)):
             b = lines.get(i)
             if b == "PANIC":
                 return {"kind": "panic", "event": i, "detail": "panic in the implementation"}
+            if case.events[i][0] == "q":
+                kcs.append((i, b))
+                evtoks.append([])
+                continue
             t = parse_tokens(b)
             if t is None:
                 return {"kind": "bad-output", "event": i, "detail": repr(b)}
@@ -180,6 +202,12 @@ class C20(Prop):
                 # only a group that exists has a subscription to give up
                 if int(ev[1]) in [key(v) for _, v in items]:
                     gunsub_at.setdefault(int(ev[1]), i)
+        # the key function runs exactly once per item that reaches group_by (it may be stateful: `FnMut`)
+        for i, b in kcs:
+            want = sum(1 for j, _ in items if j < i)
+            if b != f"kc={want}":
+                return {"kind": "key-calls", "event": i,
+                        "detail": f"{b}: the key function was called that often for {want} items"}
         keys = dedup([key(v) for _, v in items])
         seen_keys = keys if otake is None else keys[:otake]      # announcements the outer probe receives
         attached = [k for k in seen_keys if k not in skip]
